@@ -1,5 +1,5 @@
 #!/venv/bin/python
-"""Calibrate per-rule floors on the current (reference) tree: 40% of the decided count (a rule must not pass vacuously; consolidating refactorings may halve instance counts)."""
+"""Calibrate per-rule floors on the current (reference) tree: 40% of the decided count, rounded down (a rule must not pass vacuously; consolidating refactorings may halve instance counts; a rule with one or two instances gets no floor - zero-instance rules carry an embedded positive example instead)."""
 import json, os, re, subprocess
 HERE = os.path.dirname(os.path.dirname(os.path.abspath(__file__)))
 props = [c["property_id"] for c in json.load(open(os.path.join(HERE, "MANIFEST.json")))["checks"]]
@@ -9,6 +9,6 @@ for p in props:
                          env=dict(os.environ, VERIF_CALIBRATE="1", VERIF_NO_EVIDENCE="1")).stdout
     for m in re.finditer(r"^RULE (\S+)\s+obligations=(\d+) ok=(\d+) violations=(\d+)", out, re.M):
         decided = int(m.group(3)) + int(m.group(4))
-        floors[m.group(1)] = max(1, int(decided * 0.4)) if decided else 0
+        floors[m.group(1)] = int(decided * 0.4)   # 0 for rules with fewer than 3 instances: a refactoring may legitimately remove the only instance
 json.dump(floors, open(os.path.join(HERE, "floors.json"), "w"), indent=1, sort_keys=True)
 print(len(floors), "rules calibrated")
